@@ -6,10 +6,13 @@
    prints for every behaviour the exact rational pred_x, pred_p, innov_cvr, kalman_gain, est_x,
    est_p of every step (TLC also checks the property invariants on the reference itself).
    Static product lattices (cfg files) plus seeded random sub-lattices written as JSON.
-   Every behaviour is replayed into a REAL UnscentedKalmanFilter (linear `Dynamics`, real
-   `Measurement`/`Observation` objects with linear `MeasurementType`s, the production hand-over
-   predict -> UKFPredictResult -> applyFilterResult -> update -> UKFUpdateResult) and must agree
-   with the rationals to 1e-9 relative.
+   A step is predict, any number of stand-alone forecast(candidate) calls (what the tasking
+   engine does for every candidate sensor), update(obs or []).  Every behaviour is replayed on ONE
+   REAL UnscentedKalmanFilter instance (linear `Dynamics`, real `Measurement`/`Observation` objects
+   with linear `MeasurementType`s) and every predict / forecast / update output must agree with
+   the rationals to 1e-9 relative; every third behaviour is additionally replayed through the
+   production hand-over predict -> UKFPredictResult -> applyFilterResult -> update on a second
+   instance.  The named spec deviation StaleResampleFlag must be refuted by TLC.
 2. impl -> spec (RELATIONS ONLY, dimensions 1..8, dense real matrices, 0..4 stacked observations
    of dimension 1..4, 1..3 steps): the driver logs the real filter's matrices, evaluates the
    residual of every relation of the property in floating point (numpy) and projects it to an
@@ -32,14 +35,14 @@ LABELS = ("range_km", "range_rate_km_p_sec", "azimuth_rad", "elevation_rad")   #
 RTOL = 1e-9
 INVS = ["WeightsSumToOne", "UnitSecondMoment", "TuningAdmissible", "Symmetric", "PSD",
         "PosteriorIsPriorMinusKSKt", "PosteriorLePrior", "NoObsReturnsPropagatedMean",
-        "GainSolvesNormalEquations", "RedrawIsTextbookKalman", "NoRedrawIsVariant", "NoOverflow"]
+        "ForecastUsesFreshSigmaPoints", "GainSolvesNormalEquations", "RedrawIsTextbookKalman", "NoRedrawIsVariant", "NoOverflow"]
 ACTIONS = ["PoseShape", "PoseDynamics", "PosePrior", "Predict", "PoseStack", "PoseObs", "Forecast",
            "Update", "UpdateNoObs", "Advance"]
-TRACE_INVS = ["WellFormed", "WeightsSumToOne", "KalmanPredict", "Symmetric", "PSD", "KalmanInnovation",
+TRACE_INVS = ["WellFormed", "WeightsSumToOne", "KalmanPredict", "ForecastIsKalman", "Symmetric", "PSD", "KalmanInnovation",
               "KalmanGain", "KalmanMean", "PosteriorIsPriorMinusKSKt", "PosteriorLePrior",
               "NoObsReturnsPropagatedMean"]
 # order in which the relations of one logged step are blamed (later ones are consequences)
-BLAME = ["WellFormed", "WeightsSumToOne", "KalmanPredict", "KalmanInnovation", "KalmanGain", "KalmanMean",
+BLAME = ["WellFormed", "WeightsSumToOne", "KalmanPredict", "ForecastIsKalman", "KalmanInnovation", "KalmanGain", "KalmanMean",
          "PosteriorIsPriorMinusKSKt", "NoObsReturnsPropagatedMean", "Symmetric", "PosteriorLePrior", "PSD"]
 
 _R: dict = {}       # resonaate classes, imported once (before the worker pool forks)
@@ -98,27 +101,32 @@ def make_obs(H, Rm, y, sensor_id):
                             sensor_eci=np.zeros(6), measurement=meas, **vals)
 
 
-def make_filters(F, Q, x0, P0, resample, alpha, beta, kappa):
-    """Two REAL filters: `pred` plays the remote prediction worker, `upd` the estimate agent."""
+def make_filter(F, Q, x0, P0, resample, alpha, beta, kappa):
     r = _load()
-    out = []
-    for _ in range(2):
-        out.append(r["UKF"](10001, r["ScenarioTime"](0.0), np.array(x0, dtype=float), np.array(P0, dtype=float),
-                            r["LinearDynamics"](F), np.array(Q, dtype=float), None, False, False,
-                            resample=resample, alpha=alpha, beta=beta, kappa=kappa))
-    return out
+    return r["UKF"](10001, r["ScenarioTime"](0.0), np.array(x0, dtype=float), np.array(P0, dtype=float),
+                    r["LinearDynamics"](F), np.array(Q, dtype=float), None, False, False,
+                    resample=resample, alpha=alpha, beta=beta, kappa=kappa)
 
 
-def filter_step(pred, upd, k, obs):
-    """predict on the worker copy, hand over through the result objects, update, hand back."""
+def filter_step(filt, k, cands, obs, shadow=None):
+    """One step on ONE instance: predict, a stand-alone forecast per candidate stack, update.
+    `shadow` (optional second instance) plays the estimate agent of the production hand-over: it
+    receives the prediction through UKFPredictResult, updates, and hands its posterior back."""
     r = _load()
-    pred.predict(r["ScenarioTime"](60.0 * (k + 1)))
-    pres = pred.getPredictionResult()
-    upd.applyFilterResult(pres)
-    upd.update(obs)
-    ures = upd.getUpdateResult()
-    pred.applyFilterResult(ures)
-    return pres, ures
+    filt.predict(r["ScenarioTime"](60.0 * (k + 1)))
+    pres = filt.getPredictionResult()
+    fres = []
+    for cand in cands:
+        filt.forecast(cand)
+        fres.append(filt.getForecastResult())
+    sres = None
+    if shadow is not None:
+        shadow.applyFilterResult(pres)
+        shadow.update(obs)
+        sres = shadow.getUpdateResult()
+    filt.update(obs)
+    ures = filt.getUpdateResult()
+    return pres, fres, ures, sres
 
 
 def cond_factor(filt):
@@ -139,7 +147,8 @@ def fr(q):
 
 def beh_key(b):
     return (b["n"], b["resample"], json.dumps(b["tun"], sort_keys=True), json.dumps(b["F"]), json.dumps(b["Q"]),
-            json.dumps(b["x0"]), json.dumps(b["P0"]), json.dumps([s["obs"] for s in b["steps"]]))
+            json.dumps(b["x0"]), json.dumps(b["P0"]), json.dumps([s["obs"] for s in b["steps"]]),
+            json.dumps([[f["obs"] for f in s["fcs"]] for s in b["steps"]]))
 
 
 def _close(got, exp, factor=1.0):
@@ -163,33 +172,39 @@ def stale_gain(F, P_prev, P_pred, H, S):
         return None
 
 
-def replay_behaviour(b):
+def replay_behaviour(arg):
     """-> (key, nontrivial, violation or None).  Runs in a forked worker."""
+    b, with_shadow = arg
     n = b["n"]
     mode = "redraw" if b["resample"] else "noredraw"
     F = np.array(b["F"], dtype=float)
     tun = b["tun"]
     kappa = None if tun["dflt"] else fr(tun["kappa"])
-    nontrivial = any(s["obs"] for s in b["steps"])
+    nontrivial = any(s["obs"] or s["fcs"] for s in b["steps"])
     key = beh_key(b)
 
     def bad(sig, what, **got):
         return key, nontrivial, (sig, what, {"behaviour": b, "got": {k: np.asarray(v).tolist() for k, v in got.items()}})
 
     try:
-        pred, upd = make_filters(F, b["Q"], b["x0"], b["P0"], b["resample"], fr(tun["alpha"]), fr(tun["beta"]), kappa)
+        args = (F, b["Q"], b["x0"], b["P0"], b["resample"], fr(tun["alpha"]), fr(tun["beta"]), kappa)
+        filt = make_filter(*args)
+        shadow = make_filter(*args) if with_shadow else None
     except Exception as ex:  # noqa: BLE001
         return bad(f"lattice-init-exception-{type(ex).__name__}", f"constructing the filter raised {ex!r}")
-    cf = cond_factor(upd)
-    wsum = float(upd.mean_weight.sum())
+    cf = cond_factor(filt)
+    wsum = float(filt.mean_weight.sum())
     if not abs(wsum - 1.0) <= RTOL * cf:
         return bad("weights-sum", f"sigma-point mean weights sum to {wsum!r}, not 1 (n={n}, tuning {tun})", wsum=wsum)
     P_prev = np.array(b["P0"], dtype=float)
     for k, st in enumerate(b["steps"]):
         obs = [make_obs(o["H"], o["R"], o["y"], 20000 + j) for j, o in enumerate(st["obs"])]
-        where = f"step {k + 1} of {len(b['steps'])}, n={n}, {mode}"
+        cands = [[make_obs(o["H"], o["R"], o["y"], 30000 + 10 * c + j) for j, o in enumerate(f["obs"])]
+                 for c, f in enumerate(st["fcs"])]
+        nfc = f"{len(cands)} stand-alone forecast(s) before it" if cands else "no stand-alone forecast"
+        where = f"step {k + 1} of {len(b['steps'])}, n={n}, {mode}, {nfc}"
         try:
-            pres, ures = filter_step(pred, upd, k, obs)
+            pres, fres, ures, sres = filter_step(filt, k, cands, obs, shadow)
         except Exception as ex:  # noqa: BLE001
             return bad(f"lattice-{mode}-exception-{type(ex).__name__}", f"the filter raised {ex!r} at {where}")
         e_px, e_pp, e_x, e_p = qmat(st["predx"])[:, 0], qmat(st["predP"]), qmat(st["estx"])[:, 0], qmat(st["estP"])
@@ -197,6 +212,15 @@ def replay_behaviour(b):
             return bad("predict-pred_x", f"pred_x differs from F x at {where}", pred_x=pres.pred_x, expected=e_px)
         if not _close(pres.pred_p, e_pp):
             return bad("predict-pred_p", f"pred_p differs from F P F' + Q at {where}", pred_p=pres.pred_p, expected=e_pp)
+        for c, (f, fr_) in enumerate(zip(st["fcs"], fres)):
+            shape = "x".join(str(o["m"]) for o in f["obs"])
+            for name, got, exp in (("innov_cvr", fr_.innov_cvr, qmat(f["S"])), ("kalman_gain", fr_.kalman_gain, qmat(f["K"])),
+                                   ("est_p", fr_.est_p, qmat(f["P"]))):
+                if not _close(got, exp):
+                    return bad(f"{mode}-forecast-{name}",
+                               f"stand-alone forecast #{c + 1} (candidate stack {shape}): {name} differs from the Kalman "
+                               f"value at {where}", **{name: got, "expected": exp})
+        after = " after stand-alone forecasts" if (cands or any(s2["fcs"] for s2 in b["steps"][:k])) else ""
         if not obs:
             if not _close(ures.est_x, e_x, cf):
                 return bad("noobs-est_x", f"update([]) does not return the propagated mean at {where}",
@@ -207,11 +231,11 @@ def replay_behaviour(b):
             e_s, e_k = qmat(st["S"]), qmat(st["K"])
             shape = "x".join(str(o["m"]) for o in st["obs"])
             if not _close(ures.innov_cvr, e_s):
-                return bad(f"{mode}-update-innov_cvr", f"innov_cvr differs from the Kalman value at {where}, stack {shape}",
+                return bad(f"{mode}-update-innov_cvr", f"innov_cvr differs from the Kalman value{after} at {where}, stack {shape}",
                            innov_cvr=ures.innov_cvr, expected=e_s)
             if not _close(ures.kalman_gain, e_k):
                 sig = f"{mode}-update-kalman_gain"
-                what = f"kalman_gain differs from the Kalman gain at {where}, stack {shape}"
+                what = f"kalman_gain differs from the Kalman gain{after} at {where}, stack {shape}"
                 if b["resample"]:
                     H = np.vstack([np.atleast_2d(np.array(o["H"], dtype=float)) for o in st["obs"]])
                     ks = stale_gain(F, P_prev, e_pp, H, e_s)
@@ -220,11 +244,22 @@ def replay_behaviour(b):
                         what += " (it equals the gain formed from the PRE-resampling state residuals)"
                 return bad(sig, what, kalman_gain=ures.kalman_gain, expected=e_k)
             if not _close(ures.est_p, e_p):
-                return bad(f"{mode}-update-est_p", f"est_p differs from P- - K S K' at {where}, stack {shape}",
+                return bad(f"{mode}-update-est_p", f"est_p differs from P- - K S K'{after} at {where}, stack {shape}",
                            est_p=ures.est_p, expected=e_p)
             if not _close(ures.est_x, e_x, cf):
-                return bad(f"{mode}-update-est_x", f"est_x differs from x- + K (y - H x-) at {where}, stack {shape}",
+                return bad(f"{mode}-update-est_x", f"est_x differs from x- + K (y - H x-){after} at {where}, stack {shape}",
                            est_x=ures.est_x, expected=e_x)
+        if sres is not None:
+            try:
+                shadow.applyFilterResult(ures)          # not needed by the shadow itself; exercises apply()
+            except Exception as ex:  # noqa: BLE001
+                return bad(f"handover-exception-{type(ex).__name__}", f"applyFilterResult(UKFUpdateResult) raised {ex!r} at {where}")
+            for name, got, exp, fac in (("est_x", sres.est_x, e_x, cf), ("est_p", sres.est_p, e_p, 1.0)) + \
+                    ((("kalman_gain", sres.kalman_gain, qmat(st["K"]), 1.0),) if obs else ()):
+                if not _close(got, exp, fac):
+                    return bad(f"handover-{mode}-{name}",
+                               f"after predict -> UKFPredictResult -> applyFilterResult -> update on a second instance, "
+                               f"{name} differs from the Kalman value at {where}", **{name: got, "expected": exp})
         P_prev = e_p
     return key, nontrivial, None
 
@@ -265,13 +300,21 @@ def _distinct(gen, k):
 def random_lattice(rng, nsteps):
     tuns = rng.sample(TUN_POOL, 2)
     shapes = [[], [1], [2], [1, 1], [1, 2], [2, 1]]
+    cshapes = [[1], [2], [1, 2], [2, 1], [1, 1]]
     if nsteps == 1:
-        stacks = [[[]] + rng.sample(shapes[1:], 3), []]
-        kf, kp, kh = 2, 2, 2
+        stacks = [[[]] + rng.sample(shapes[1:], 2), []]
+        fseqs = [[[], [rng.choice(cshapes)]], [[]]]
+        kf, kp, kh = 2, 2, 1
     else:
         stacks = [rng.sample(shapes[:3], 2) + [rng.choice(shapes[3:])], rng.sample(shapes[:3], 2) + [rng.choice(shapes[3:])]]
-        kf, kp, kh = 2, 1, 1
+        fseqs = [[[], [rng.choice(cshapes) for _ in range(rng.randint(1, 2))]], [[], [rng.choice(cshapes)]]]
+        if rng.random() < 0.5:
+            fseqs[1] = [[]]
+        kf, kp, kh = 1, 1, 1
     return {
+        "fseqs": fseqs, "nc": 1,
+        "CH": [[[_imat(rng, m, n)] for m in (1, 2)] for n in (1, 2)],
+        "CR": [[_pd_int(rng, m)] for m in (1, 2)],
         "dims": [1, 2], "modes": [True, False], "nsteps": [nsteps], "stacks": stacks,
         "tun": [{"alpha": list(a), "beta": list(bt), "kappa": list(kp_ or (0, 1)), "dflt": kp_ is None} for a, bt, kp_ in tuns],
         "F": [_distinct(lambda n=n: _imat(rng, n, n), kf) for n in (1, 2)],
@@ -306,7 +349,14 @@ def random_system(rng, idx):
             m = int(rng.integers(1, 5))
             H = rng.normal(size=(m, n)) * (rng.random(size=(m, 1)) < 0.9)
             stack.append({"H": H.tolist(), "R": _pd_real(rng, m, 0.05).tolist(), "y": (rng.normal(size=m) * 4).tolist()})
-        steps.append(stack)
+        cands = []
+        for _ in range(int(rng.choice((0, 0, 1, 2, 3)))):
+            cand = []
+            for _ in range(int(rng.integers(1, 3))):
+                m = int(rng.integers(1, 5))
+                cand.append({"H": rng.normal(size=(m, n)).tolist(), "R": _pd_real(rng, m, 0.05).tolist(), "y": [0.0] * m})
+            cands.append(cand)
+        steps.append({"obs": stack, "cands": cands})
     scale = float(rng.choice((0.5, 1.0, 1.3)))
     return {"n": n, "resample": bool(idx % 2), "alpha": tun[0][0] / tun[0][1], "beta": tun[1][0] / tun[1][1], "kappa": kappa,
             "F": (rng.normal(size=(n, n)) * scale / np.sqrt(n)).tolist(), "Q": _pd_real(rng, n, 0.01).tolist(),
@@ -336,22 +386,46 @@ def _neg_eig(a):
     return max(0.0, -float(np.linalg.eigvalsh(s).min())) / max(1e-300, float(np.abs(a).max()))
 
 
+def _stack_hr(stack):
+    H = np.vstack([np.atleast_2d(np.array(o["H"], dtype=float)) for o in stack])
+    m = H.shape[0]
+    Rm = np.zeros((m, m))
+    at = 0
+    for o in stack:
+        d = len(o["y"])
+        Rm[at:at + d, at:at + d] = np.array(o["R"])
+        at += d
+    return H, Rm
+
+
 def relation_records(sysd):
     """Run the REAL filter on one random system; one projected record per filter step."""
     n = sysd["n"]
     F, Q = np.array(sysd["F"]), np.array(sysd["Q"])
-    pred, upd = make_filters(F, Q, sysd["x0"], sysd["P0"], sysd["resample"], sysd["alpha"], sysd["beta"], sysd["kappa"])
+    filt = upd = make_filter(F, Q, sysd["x0"], sysd["P0"], sysd["resample"], sysd["alpha"], sysd["beta"], sysd["kappa"])
     cf = cond_factor(upd)
     x, P = np.array(sysd["x0"], dtype=float), np.array(sysd["P0"], dtype=float)
     recs = []
-    for k, stack in enumerate(sysd["steps"]):
+    for k, stp in enumerate(sysd["steps"]):
+        stack = stp["obs"]
         obs = [make_obs(o["H"], o["R"], o["y"], 20000 + j) for j, o in enumerate(stack)]
-        pres, ures = filter_step(pred, upd, k, obs)
+        cands = [[make_obs(o["H"], o["R"], o["y"], 30000 + 10 * c + j) for j, o in enumerate(cd)]
+                 for c, cd in enumerate(stp["cands"])]
+        pres, fres, ures, _ = filter_step(filt, k, cands, obs)
         m = sum(len(o["y"]) for o in stack)
         prop = F @ P @ F.T
+        kf = -1
+        for cd, fr_ in zip(stp["cands"], fres):      # stand-alone forecasts: S, K, P+ of the candidate stack
+            Hc, Rc = _stack_hr(cd)
+            Pg = np.asarray(pres.pred_p, dtype=float) if sysd["resample"] else prop
+            Sc, Kc = np.asarray(fr_.innov_cvr, dtype=float), np.asarray(fr_.kalman_gain, dtype=float)
+            ok = Kc.shape == (n, Hc.shape[0]) and Sc.shape == (Hc.shape[0],) * 2
+            kf = max(kf, _q(max(_rel(Sc, Hc @ Pg @ Hc.T + Rc), _rel(Kc @ Sc, Pg @ Hc.T),
+                                _rel(fr_.est_p, pres.pred_p - Kc @ Sc @ Kc.T))) if ok else 10**9)
         rec = {"n": n, "m": m, "resample": sysd["resample"], "step": k + 1,
                "wsum": _q(abs(float(upd.mean_weight.sum()) - 1.0) / cf),
                "kpred": _q(max(_rel(pres.pred_x, F @ x, cf), _rel(pres.pred_p, prop + Q))),
+               "kfcast": kf, "nfc": len(fres),
                "symp": _q(_asym(pres.pred_p)), "psdp": _q(_neg_eig(pres.pred_p)),
                "syme": -1, "psde": -1, "kinnov": -1, "kgain": -1, "kmean": -1, "pkskt": -1, "le": -1, "noobs": -1,
                "stale": False}
@@ -363,14 +437,8 @@ def relation_records(sysd):
         if m == 0:
             rec["noobs"] = _q(max(_rel(ures.est_x, F @ x), _rel(est_p, pres.pred_p)))
         else:
-            H = np.vstack([np.atleast_2d(np.array(o["H"])) for o in stack])
-            Rm = np.zeros((m, m))
+            H, Rm = _stack_hr(stack)
             y = np.concatenate([np.array(o["y"], dtype=float) for o in stack])
-            at = 0
-            for o in stack:
-                d = len(o["y"])
-                Rm[at:at + d, at:at + d] = np.array(o["R"])
-                at += d
             S, K = np.asarray(ures.innov_cvr, dtype=float), np.asarray(ures.kalman_gain, dtype=float)
             Pg = np.asarray(pres.pred_p, dtype=float) if sysd["resample"] else prop
             rec["kinnov"] = _q(_rel(S, H @ Pg @ H.T + Rm))
@@ -401,8 +469,24 @@ def _relations_job(args):
 
 # ------------------------------------------------------------------------------------------
 def _cfg(lattices):
-    return ("SPECIFICATION Spec\nCONSTANT Lattices <- " + lattices + "\n"
-            + "".join(f"INVARIANT {i}\n" for i in INVS) + "INVARIANT Emit\nINVARIANT EmitOverflow\n")
+    return ("SPECIFICATION Spec\nCONSTANT Lattices <- " + lattices + "\nCONSTANT StaleResampleFlag = FALSE\n"
+            + "".join(f"INVARIANT {i}\n" for i in INVS) + "PROPERTY ForecastKeepsEstimate\n"
+            + "INVARIANT Emit\nINVARIANT EmitOverflow\n")
+
+
+def _run_deviation(ctx):
+    """The named spec deviation (stale `resampled` flag: forecast() redraws only once per measurement update and only
+    update() WITH observations clears the flag) must be refuted by TLC."""
+    d = ctx.sub("deviation")
+    (d / "lat.json").write_text("[]")
+    res = tlc.run_tlc("LinearGaussian", "LinearGaussian_dev_staleflag.cfg", d, workers=2, timeout=600, cont=True,
+                      env={"LG_LATTICES": "lat.json"})
+    tlc.require_ok(res, "LinearGaussian deviation StaleResampleFlag")
+    killed = {inv for inv, _ in res.invariant_violations}
+    # (TLC reports the first violated invariant of a state; the stale state violates both)
+    if not {"ForecastUsesFreshSigmaPoints", "RedrawIsTextbookKalman"} & killed:
+        raise tlc.MachineryError(f"spec deviation StaleResampleFlag is not refuted by TLC (violated: {sorted(killed)})")
+    return res, sorted(killed)
 
 
 def _run_lattice_tlc(ctx, name, lattices, workers, lat_json="[]", coverage=False):
@@ -454,11 +538,15 @@ def run(ctx: Ctx):
                      ("random1", "LatsFile", json.dumps(rand_lats[:half])), ("random2", "LatsFile", json.dumps(rand_lats[half:]))]
         wk = max(2, ctx.cpus // (2 if ctx.quick else 3))
         n_sys = 400 if ctx.quick else 6000
-        with ThreadPoolExecutor(len(plans)) as ex:
+        with ThreadPoolExecutor(len(plans) + 1) as ex:
             futs = [ex.submit(_run_lattice_tlc, ctx, name, lats, wk, js) for name, lats, js in plans]
+            fdev = ex.submit(_run_deviation, ctx)
             # meanwhile: the relations part on the worker pool
             rel = pool.map(_relations_job, [(i, ctx.seed) for i in range(n_sys)], chunksize=25)
             results = [f.result() for f in futs]
+            dev, killed = fdev.result()
+        ctx.add_tlc(dev, "LinearGaussian.tla with the named deviation StaleResampleFlag = TRUE (must be refuted)")
+        ctx.extra["spec_mutants_killed"] = {"StaleResampleFlag": killed}
         # ---- part 1: replay -----------------------------------------------------------------
         behaviours, seen, overflow = [], set(), 0
         for (name, lats, _), res in zip(plans, results):
@@ -473,19 +561,24 @@ def run(ctx: Ctx):
             raise tlc.MachineryError("LinearGaussian.tla emitted no behaviour")
         # every action of the specification was taken (a "done" behaviour passes through all Pose* actions, Predict
         # and Advance; Forecast/Update need a step with observations, UpdateNoObs one without, PoseObs a stack)
+        if not any(s["fcs"] and not s["obs"] for b in behaviours if b["resample"] and len(b["steps"]) == 2
+                   for s in b["steps"][:1]):
+            raise tlc.MachineryError("no behaviour with predict, forecast, update([]), predict, ... in resample mode")
         kinds = {(len(s["obs"]) > 0) for b in behaviours for s in b["steps"]}
         shapes = {tuple(o["m"] for o in s["obs"]) for b in behaviours for s in b["steps"]}
         if kinds != {True, False} or not {(1, 2), (2, 1)} <= shapes or {len(b["steps"]) for b in behaviours} != {1, 2} \
                 or {b["resample"] for b in behaviours} != {True, False} or {b["n"] for b in behaviours} != {1, 2}:
             raise tlc.MachineryError(f"lattice does not exercise every action/mode: kinds={kinds} shapes={shapes}")
         behaviours.sort(key=beh_key)          # TLC's workers print in no fixed order; make the run deterministic
-        out = pool.map(replay_behaviour, behaviours, chunksize=64)
+        out = pool.map(replay_behaviour, [(b, i % 3 == 0) for i, b in enumerate(behaviours)], chunksize=64)
         by_sig: dict = {}
         nviol = 0
         for b, (key, nontrivial, viol) in zip(behaviours, out):
             ctx.case(("lattice",) + key, nontrivial=nontrivial,
                      sample={"n": b["n"], "resample": b["resample"], "tun": b["tun"], "F": b["F"], "steps": len(b["steps"]),
-                             "obs": [[o["m"] for o in s["obs"]] for s in b["steps"]]} if len(ctx.samples) < 3 and nontrivial else None)
+                             "obs": [[o["m"] for o in s["obs"]] for s in b["steps"]],
+                             "standalone_forecasts": [[[o["m"] for o in f["obs"]] for f in s["fcs"]] for s in b["steps"]]}
+                     if len(ctx.samples) < 3 and nontrivial and (len(ctx.samples) < 2 or any(s["fcs"] for s in b["steps"])) else None)
             if viol:
                 nviol += 1
                 by_sig.setdefault(viol[0], []).append(viol)
@@ -494,6 +587,8 @@ def run(ctx: Ctx):
         ctx.traces_validated += len(behaviours)
         ctx.extra["lattice_behaviours_replayed"] = len(behaviours)
         ctx.extra["lattice_behaviours_two_step"] = sum(1 for b in behaviours if len(b["steps"]) == 2)
+        ctx.extra["lattice_behaviours_with_standalone_forecasts"] = sum(1 for b in behaviours if any(s["fcs"] for s in b["steps"]))
+        ctx.extra["lattice_standalone_forecasts_compared"] = sum(len(s["fcs"]) for b in behaviours for s in b["steps"])
         ctx.extra["lattice_behaviours_violating"] = nviol
         ctx.extra["lattice_violations_by_signature"] = {s: len(v) for s, v in sorted(by_sig.items())}
         ctx.extra["lattice_behaviours_dropped_not_representable_in_32_bit"] = overflow
@@ -510,10 +605,11 @@ def validate_relations(ctx: Ctx, rel):
     recs, owner = [], []
     for idx, (sysd, rs, err) in enumerate(rel):
         mode = "redraw" if sysd["resample"] else "noredraw"
-        nobs = [len(s) for s in sysd["steps"]]
+        nobs = [len(s["obs"]) for s in sysd["steps"]]
         ctx.case(("relations", ctx.seed, idx), nontrivial=any(nobs),
                  sample={"relations_system": {"n": sysd["n"], "resample": sysd["resample"], "alpha": sysd["alpha"],
-                                              "obs_dims": [[len(o["y"]) for o in s] for s in sysd["steps"]]}}
+                                              "obs_dims": [[len(o["y"]) for o in s["obs"]] for s in sysd["steps"]],
+                                              "standalone_forecasts": [len(s["cands"]) for s in sysd["steps"]]}}
                  if idx in (1, 2) else None)
         if err:
             ctx.violation(f"rel-{mode}-exception-{err.split(':')[0]}",
@@ -563,6 +659,7 @@ def validate_relations(ctx: Ctx, rel):
     ctx.extra["relation_systems"] = len(rel)
     ctx.extra["relation_records"] = len(recs)
     ctx.extra["relation_records_dim_ge_3"] = sum(1 for r in recs if r["n"] >= 3)
+    ctx.extra["relation_standalone_forecasts"] = sum(r["nfc"] for r in recs)
     ctx.extra["relation_systems_violating"] = len(blamed)
     ctx.extra["relation_violations_by_signature"] = {s: len(v) for s, v in sorted(by_sig.items())}
 
@@ -573,7 +670,7 @@ def replay(ctx: Ctx, rp: dict):
     r = rp["replay"]
     if "behaviour" in r:
         b = r["behaviour"]
-        key, nontrivial, viol = replay_behaviour(b)
+        key, nontrivial, viol = replay_behaviour((b, True))
         ctx.case(("lattice",) + key, nontrivial=nontrivial)
         ctx.case(("replay", rp.get("signature")))
         if viol:
